@@ -138,12 +138,19 @@ def maxOf : List α → α
 def divMat (v : α) (C : List (List α)) : List (List α) := C.map (fun r => r.map (fun c => c / v))
 def divVec (v : α) (d : List α) : List α := d.map (fun c => c / v)
 
+/-- nnls.py:68 `vmax = d_vector.max()`.  `guarded` is read from the source by `harness/translators/inversion.py`
+(`Cherab.Gen.Inversion.nnlsVmaxGuarded`): `false` for the code as it is (the system is divided by `vmax` whatever its
+value), `true` once an `if not vmax > 0: vmax = 1.0` guard follows the assignment. -/
+def normaliser (guarded : Bool) (d : List α) : α :=
+  let v := maxOf d
+  if guarded then (if 0 < v then v else 1) else v
+
 /-- nnls.py: `solver` stands for `scipy.optimize.nnls` (returns solution and residual 2-norm) -/
-def nnlsWrap (solver : List (List α) → List α → List α × α) (n : Nat) (W : List (List α)) (b : List α)
+def nnlsWrap (guarded : Bool) (solver : List (List α) → List α → List α × α) (n : Nat) (W : List (List α)) (b : List α)
     (a : α) (L : Option (List (List α))) : List α × α :=
   let C := stackC n W a L
   let d := stackD n b
-  let v := maxOf d
+  let v := normaliser guarded d
   let r := solver (divMat v C) (divVec v d)
   (r.1, r.2 * v)
 
